@@ -174,14 +174,16 @@ class get_expr_end_visitor(NodeVisitor):
 
     def visit_Constant(self, node):
         # type: (Constant) -> None
-        self.last_loc = node.lineno, node.col_offset + 1
+        self.last_loc = max(self.last_loc, (node.lineno, node.col_offset + 1))
 
     def __getattr__(self, name):
         # type: (str) -> t.Callable[[AST], None]
         def inner(node):
             # type: (AST) -> None
             try:
-                self.last_loc = node.lineno, node.col_offset + 1
+                # the last node of the text, which is not always the last
+                # one visited: f(k=1, *args) keeps args before k in the tree
+                self.last_loc = max(self.last_loc, (node.lineno, node.col_offset + 1))
             except AttributeError:
                 pass
             self.generic_visit(node)
